@@ -34,6 +34,7 @@ import Proofs.FormatExpLex
 import Martian.FormatExp
 import Gen.Facts
 import Proofs.FormatCallLex
+import Proofs.FormatDeclLex
 
 namespace Props.C09
 open Martian.Format
@@ -357,5 +358,156 @@ theorem split_near_misses :
       .int [0x31], .punct 0x2C, .punct 0x29]).isNone = true := by decide +kernel
 
 end CallStatements
+
+/-! ## type names, parameter lists, `struct` and `filetype` declarations
+
+Model: `Martian.FormatDecl` (`fmtParam mw tw iw hw` = `paramFormat` for ARBITRARY
+column widths, `widths` = `getWidths`, `maxWidths` = `measureParamsWidths`,
+`fmtStruct` = `StructType.format`, `fmtFiletype` = `UserType.format`; readers
+`pType`, `pInParams`, `pOutParams`, `pMembers`, `parseStruct`, `parseFiletype`,
+`parseParams` for the grammar's `type_id`, `in_param_list`, `out_param_list`,
+`struct_field_list`, `struct`, `dec: FILETYPE id_list ';'`; `wfParam`,
+`wfMember`, `wfStruct`, `wfFiletype` = the values the parser can produce).  No
+normal form is needed: the AST is preserved exactly.  Tied on every run
+(harness/c09decl.go): `fmtStruct`/`fmtFiletype` vs `FormatSrcBytes` byte for
+byte, `parseStruct`/`parseFiletype` vs `Parser.UncheckedParse`, parameter blocks
+inside a minimal stage (printer, `widths`, reader), respelled and near-miss texts. -/
+section Declarations
+open Martian.FormatExp Martian.FormatDecl
+
+/-- **Round trip, `struct`.**  For EVERY well-formed struct declaration (any
+number ≥ 1 of members; builtin, user-defined and dotted type names, arrays,
+typed maps `map<T[]>[]`; ids of any length incl. id-like keywords; help texts and
+out names with any valid UTF-8 content, empty help with an out name), the reader
+accepts the printed text and returns exactly the declaration. -/
+theorem parse_format_struct (s : Struct) (hw : wfStruct s = true) :
+    parseStruct (fmtStruct s) = some s :=
+  parseStruct_fmtStruct s hw
+
+/-- **Round trip, `filetype`.** -/
+theorem parse_format_filetype (t : Filetype) (hw : wfFiletype t = true) :
+    parseFiletype (fmtFiletype t) = some t :=
+  parseFiletype_fmtFiletype t hw
+
+/-- **Round trip, parameter block.**  Input parameters followed by output
+parameters, printed with ANY column widths (whatever lists `measureParamsWidths`
+was run over), read back by `in_param_list out_param_list` as exactly the same
+parameters: named and unnamed (`default`) outputs, help present or absent, an out
+name with or without help text (the `""` placeholder). -/
+theorem parse_format_params (mw tw iw hw : Nat) (ins outs : List Param)
+    (hwi : ins.all Martian.FormatDecl.wfParam = true) (hwo : outs.all Martian.FormatDecl.wfParam = true)
+    (hi : ins.all (fun p => !p.out) = true) (ho : outs.all (fun p => p.out) = true) :
+    parseParams (fmtParams mw tw iw hw (ins ++ outs)) = some (ins ++ outs) :=
+  parseParams_fmtParams mw tw iw hw ins outs hwi hwo hi ho
+
+/-- **Idempotent.**  Read-then-print of a printed declaration gives the same
+text (the reader returns the declaration itself). -/
+theorem format_struct_idem (s : Struct) (hw : wfStruct s = true) :
+    (parseStruct (fmtStruct s)).map fmtStruct = some (fmtStruct s) := by
+  rw [parse_format_struct s hw]; rfl
+
+theorem format_params_idem (mw tw iw hw : Nat) (ins outs : List Param)
+    (hwi : ins.all Martian.FormatDecl.wfParam = true) (hwo : outs.all Martian.FormatDecl.wfParam = true)
+    (hi : ins.all (fun p => !p.out) = true) (ho : outs.all (fun p => p.out) = true) :
+    (parseParams (fmtParams mw tw iw hw (ins ++ outs))).map (fmtParams mw tw iw hw) =
+      some (fmtParams mw tw iw hw (ins ++ outs)) := by
+  rw [parse_format_params mw tw iw hw ins outs hwi hwo hi ho]; rfl
+
+/-- the lexer sees exactly the intended tokens of a parameter list, in any
+context: any widths, any following text (which is lexed on its own) -/
+theorem lex_format_params (mw tw iw hw : Nat) (ps : List Param) (h : ps.all Martian.FormatDecl.wfParam = true)
+    (rest : List UInt8) :
+    lexAll (fmtParams mw tw iw hw ps ++ rest) = (lexAll rest).map (toksParams ps ++ ·) :=
+  lexOK_fmtParams mw tw iw hw ps h rest trivial
+
+/-- … and of a type name followed by the end of the input or a byte that is not a word character -/
+theorem lex_format_type (t : TypeId) (h : wfType t = true) (rest : List UInt8) (hr : WordEnd rest) :
+    lexAll (fmtType t ++ rest) = (lexAll rest).map (toksType t ++ ·) :=
+  lexOK_fmtType t h rest hr
+
+/-- the readers of the two halves of a parameter block, in any context: any
+following tokens that do not start with IN (resp. OUT), any fuel above the
+number of tokens of the list -/
+theorem read_in_params (ps : List Param) (f : Nat) (rest : List Tok) (hw : ps.all Martian.FormatDecl.wfParam = true)
+    (hm : ps.all (fun p => !p.out) = true) (hf : (toksParams ps).length < f)
+    (hr : headKw sIn rest = false) : pInParams f (toksParams ps ++ rest) = some (ps, rest) :=
+  pInParams_toks ps f rest hw hm hf hr
+
+theorem read_out_params (ps : List Param) (f : Nat) (rest : List Tok) (hw : ps.all Martian.FormatDecl.wfParam = true)
+    (hm : ps.all (fun p => p.out) = true) (hf : (toksParams ps).length < f)
+    (hr : headKw sOut rest = false) : pOutParams f (toksParams ps ++ rest) = some (ps, rest) :=
+  pOutParams_toks ps f rest hw hm hf hr
+
+/-- `TypeId.strlen` is the length of what `TypeId.writeTo` prints -/
+theorem typeLen_is_length (t : TypeId) : typeLen t = (fmtType t).length := typeLen_eq t
+
+/-- `measureParamsWidths` over several lists is `getWidths` of their concatenation,
+and the type column is wide enough for every parameter measured -/
+theorem measure_is_widths (pss : List (List Param)) :
+    maxWidths (pss.map widths) = widths pss.flatten ∧
+    ∀ p ∈ pss.flatten, typeLen p.type ≤ (widths pss.flatten).2.1 :=
+  ⟨maxWidths_widths pss, fun p hp => typeLen_le_widths _ p hp⟩
+
+/-- non-vacuity: a well-formed struct with a typed map of arrays of a dotted user
+type, a builtin, `map[]`, an id-like keyword as id and as type, help with an
+escape, an out name without help, a 40-byte id; the reader returns it from its
+tokens; its column widths are plain maxima (40: no cut-off) -/
+example :
+    let s : Struct := ⟨[0x53],
+      [⟨⟨[[0x6A, 0x73, 0x6F, 0x6E], [0x67, 0x7A]], 1, 2⟩, [0x61], [0x68, 0x22, 0x0A], [0x6F]⟩,
+       ⟨⟨[sInt], 3, 0⟩, sStruct, [], [0x6F, 0x6E]⟩,
+       ⟨⟨[sMap], 1, 0⟩, List.replicate 40 0x71, [], []⟩,
+       ⟨⟨[sFiletype], 0, 1⟩, [0x5F, 0x78], [0xC3, 0xA9], []⟩]⟩
+    wfStruct s = true ∧ parseStructToks (toksStruct s) = some s ∧
+      structWidths s.members = (16, 40, 3) := by decide +kernel
+
+/-- non-vacuity: a well-formed parameter block — inputs with and without help,
+an unnamed output, an unnamed output with help and out name, an unnamed output
+with an out name only, a named output with an out name only, ids of 34 and 35
+bytes and help texts of 24 and 25 bytes (the cut-offs of `widths`) -/
+example :
+    let ins : List Param :=
+      [⟨⟨⟨[sInt], 0, 0⟩, [0x61], [], []⟩, false⟩,
+       ⟨⟨⟨[[0x62, 0x61, 0x6D]], 2, 0⟩, List.replicate 34 0x62, List.replicate 24 0x68, []⟩, false⟩,
+       ⟨⟨⟨[sPath], 0, 3⟩, List.replicate 35 0x63, List.replicate 25 0x68, []⟩, false⟩]
+    let outs : List Param :=
+      [⟨⟨⟨[sInt], 0, 0⟩, sDefault, [], []⟩, true⟩,
+       ⟨⟨⟨[sFloat], 1, 0⟩, sDefault, [0x68], [0x6F]⟩, true⟩,
+       ⟨⟨⟨[sBool], 0, 0⟩, sDefault, [], [0x6F]⟩, true⟩,
+       ⟨⟨⟨[sString], 0, 0⟩, [0x78], [], [0x6F, 0x32]⟩, true⟩]
+    (ins ++ outs).all Martian.FormatDecl.wfParam = true ∧ ins.all (fun p => !p.out) = true ∧ outs.all (fun p => p.out) = true ∧
+      parseParamsToks (toksParams (ins ++ outs)) = some (ins ++ outs) ∧
+      widths (ins ++ outs) = (3, 13, 34, 24) := by decide +kernel
+
+/-- non-vacuity: a dotted filetype whose components are id-like keywords -/
+example : wfFiletype ⟨[[0x6A, 0x73, 0x6F, 0x6E], sFiletype, sStruct]⟩ = true ∧
+    parseFiletypeToks (toksFiletype ⟨[[0x6A, 0x73, 0x6F, 0x6E], sFiletype, sStruct]⟩) =
+      some ⟨[[0x6A, 0x73, 0x6F, 0x6E], sFiletype, sStruct]⟩ := by decide +kernel
+
+/-- Negative witnesses: outside `wf` the claim fails or the text is not in the
+language — a struct member named like a reserved word (`in`) is printed bare and
+is then a keyword token; `struct S()` has no member; `map<map>` is not a type
+(but `map` alone is); `filetype a..b;`; an out name on an input parameter is
+neither printed (`GetOutName()` is `""`) nor accepted by the grammar; `default`
+is not an identifier, an unnamed output is written without id -/
+theorem decl_near_misses :
+    wfMember ⟨⟨[sInt], 0, 0⟩, sIn, [], []⟩ = false ∧
+    parseStructToks [.id sStruct, .id [0x53], .punct 0x28, .reserved sInt, .reserved sIn, .punct 0x2C,
+      .punct 0x29] = none ∧
+    wfStruct ⟨[0x53], []⟩ = false ∧ parseStructToks [.id sStruct, .id [0x53], .punct 0x28, .punct 0x29] = none ∧
+    wfType ⟨[sMap], 0, 1⟩ = false ∧ wfType ⟨[sMap], 2, 0⟩ = true ∧
+    pType 9 [.reserved sMap, .punct 0x3C, .reserved sMap, .punct 0x3E, .id [0x78]] = none ∧
+    parseFiletypeToks [.id sFiletype, .id [0x61], .punct 0x2E, .punct 0x2E, .id [0x62], .punct 0x3B] = none ∧
+    Martian.FormatDecl.wfParam ⟨⟨⟨[sInt], 0, 0⟩, [0x78], [0x68], [0x6F]⟩, false⟩ = false ∧
+    parseParamsToks (toksParams [⟨⟨⟨[sInt], 0, 0⟩, [0x78], [0x68], [0x6F]⟩, false⟩]) =
+      some [⟨⟨⟨[sInt], 0, 0⟩, [0x78], [0x68], []⟩, false⟩] ∧
+    parseParamsToks [.reserved sIn, .reserved sInt, .id [0x78], .str [0x22, 0x68, 0x22], .str [0x22, 0x6F, 0x22],
+      .punct 0x2C] = none ∧
+    parseParamsToks [.reserved sOut, .kDefault, .reserved sInt, .id [0x78], .punct 0x2C] = none ∧
+    wfMember ⟨⟨[sInt], 0, 0⟩, sDefault, [], []⟩ = false ∧
+    fmtParam 3 3 0 0 ⟨⟨⟨[sInt], 0, 0⟩, sDefault, [], []⟩, true⟩ =
+      [0x20, 0x20, 0x20, 0x20, 0x6F, 0x75, 0x74, 0x20, 0x69, 0x6E, 0x74, 0x2C, 0x0A] := by decide +kernel
+
+end Declarations
 
 end Props.C09
